@@ -165,6 +165,9 @@ mod expr {
 //@extract crates/samlang-ast/src/source.rs :: mod expr / struct Unary
 //@keeppub
 //@end
+//@extract crates/samlang-ast/src/source.rs :: mod expr / struct Match
+//@keeppub
+//@end
   /// the condition of an if-else is only carried into the node
   #[verifier::external_body]
   #[verifier::accept_recursive_types(T)]
@@ -185,6 +188,7 @@ mod expr {
     Call(Call<T>),
     Binary(Binary<T>),
     Unary(Unary<T>),
+    Match(Match<T>),
     Other(ExpressionCommon<T>),
   }
   impl<T: Clone> E<T> {
@@ -195,6 +199,7 @@ mod expr {
         E::Call(n) => n.common.loc,
         E::Binary(n) => n.common.loc,
         E::Unary(n) => n.common.loc,
+        E::Match(n) => n.common.loc,
         E::Other(c) => c.loc,
       }
     }
@@ -391,6 +396,21 @@ fn no_comment_reference() -> (r: CommentReference) { unimplemented!() }
       encloses(r.loc, r.body.range()) || exists|comma: Location| r.loc == #[trigger] joined(r.pattern.range(), comma),  // :match_case_range_ends_at_its_body_or_its_comma
 //@before expr::VariantPatternToExpression {
     assert(encloses(loc, expression.range()) || exists|comma: Location| loc == #[trigger] joined(pattern.range(), comma));
+//@end
+
+// ---- a match expression runs from the `match` keyword to its closing brace
+//@extractblock crates/samlang-parser/src/source_parser.rs :: mod expression_parser / fn parse_match
+//@from let loc = {
+//@to cases: matching_list, })
+//@wrap fn match_node(parser: &mut SourceParser, peeked_loc: Location, mut associated_comments: Vec<Comment>, match_expression: expr::E<()>, matching_list: Vec<expr::VariantPatternToExpression<()>>) -> (r: expr::E<()>)
+//@contract
+    ensures
+      r matches expr::E::Match(n) && *n.matched == match_expression && n.cases == matching_list
+        && encloses(n.common.loc, peeked_loc)
+        // .. and is exactly keyword ∪ the token consumed as the closing brace (nothing parsed in between can move it)
+        && exists|brace: Location| n.common.loc == #[trigger] joined(peeked_loc, brace),  // :match_expression_range_is_keyword_to_closing_brace
+//@before expr::E::Match(expr::Match {
+      assert(exists|brace: Location| loc == #[trigger] joined(peeked_loc, brace));
 //@end
 
 // =====================================================================================
